@@ -26,6 +26,13 @@ type Built struct {
 // FinalizeAndAssemble, WriteBlockWithState.  The worker itself is not used: it
 // is welded to timers, the tx pool and sortition.
 func (n *Node) Build(coinbase common.Address, txs []*types.Transaction) (*Built, error) {
+	return n.BuildWith(coinbase, txs, nil)
+}
+
+// BuildWith is Build with an optional edit of the header right after ProcessYouVersionState (before engine.Prepare
+// and before anything is executed).  Used by C12 to model a block of an honest proposer whose client has a different
+// version table (it neither proposes nor approves an upgrade it does not know); never used to forge anything else.
+func (n *Node) BuildWith(coinbase common.Address, txs []*types.Transaction, editVersionState func(*types.Header)) (*Built, error) {
 	chain := n.BC
 	parent := chain.CurrentBlock()
 	num := new(big.Int).Add(parent.Number(), common.Big1())
@@ -41,6 +48,9 @@ func (n *Node) Build(coinbase common.Address, txs []*types.Transaction) (*Built,
 	}
 	if err := core.ProcessYouVersionState(parent.Header(), header); err != nil {
 		return nil, fmt.Errorf("ProcessYouVersionState: %v", err)
+	}
+	if editVersionState != nil {
+		editVersionState(header)
 	}
 	if err := n.Engine.Prepare(chain, header); err != nil {
 		return nil, err
